@@ -250,6 +250,16 @@ def symbol_part(rep, tier):
              ('make_email', dict(to='me@example.org', subject='Grüße €', body='b'), helpers.make_make_email_data),
              ('make_mecard', dict(name='山田,太郎', memo='メモ'), helpers.make_mecard_data),
              ('make_wifi', dict(ssid='Ünï€', password='x'), helpers.make_wifi_data)]
+    # text shapes: the symbol holds the payload as it is - no Unicode normalisation, no re-escaping (decomposed letters, characters whose
+    # canonical form is an ASCII delimiter (U+037E -> ';', U+212A -> 'K'), fullwidth forms, astral characters, mixed scripts)
+    shapes = ['e\u0301', 'Ame\u0301lie', 'kalimera\u037e2024', '\u212a\u212b', 'A\u030a', '\u1fef', '\uff21\uff1b', '\U0001f600;x', 'Gr\xfc\xdfe', '\u70b9\u8317',
+              'n\u0303o\u0308', '\u0387:', 'a\u00a0b', '\u2126']
+    for t in shapes if tier == 'quick' else shapes + [a + b for a in shapes[:6] for b in shapes[6:]]:
+        cases += [('make_wifi', dict(ssid=t, password='pw' + t, security='WPA'), helpers.make_wifi_data),
+                  ('make_mecard', dict(name=t, memo=t + ';', email='a@example.org'), helpers.make_mecard_data),
+                  ('make_vcard', dict(name='Doe;' + t, displayname=t, org=t), helpers.make_vcard_data),
+                  ('make_email', dict(to='a@example.org', subject=t, body=t), helpers.make_make_email_data),
+                  ('make_email', dict(to=t + '@example.org', cc='c@example.org'), helpers.make_make_email_data)]
     for fname, kw, datafn in cases:
         qr = getattr(helpers, fname)(**kw)
         payload = datafn(**kw)
